@@ -7,7 +7,7 @@ from hypothesis import strategies as st
 from vt import core, gen
 from vt.core import Checker, lib, dense, dense_abs, DT, UNIT, fro
 
-RULE = ("Hypothesis draws y = c + z*z (c in {1,0.5,3}, z a Gaussian TT of ranks 1-2 rescaled to max|z| in {0.3,1,2}, so "
+RULE = ("[complex128: 1/4 of the TT/TT cases use a complex numerator and store the positive denominator with complex dtype.] Hypothesis draws y = c + z*z (c in {1,0.5,3}, z a Gaussian TT of ranks 1-2 rescaled to max|z| in {0.3,1,2}, so "
         "all entries of y lie in [c, c+4]), x a Gaussian TT of ranks 1-4, order 2-5, modes 1-10, and a form: x/y, s/y "
         "(s int, float, 0-d or one-element tensor), elementwise_divide(x,y,eps, preconditioner None/'c', starting "
         "tensor None/random/one of the operands themselves, kick) with eps log-uniform in [1e-11,1e-3], elementwise_divide(scalar,y), and x/s. x and y are also multiplied by 10^{0,+-3,+-6}; two families leave the 3000-entry cap: large local problems (modes 8-10, iterative local solver) and high-rank quotients (order 4-5, modes 7-8, middle rank 49-64). The seed "
@@ -65,6 +65,9 @@ def strategy_case(draw):
             case["start_R"] = draw(gen.ranks(d, 3))
             # the initial guess may be a fresh tensor or one of the operands themselves (numerator as a cheap first guess)
             case["start_kind"] = draw(st.sampled_from(["random", "random", "x", "y"]))
+    # complex128 objects: complex numerator, the (positive) denominator stored with complex dtype
+    if form in ("x/y", "s/y", "ediv"):
+        case["dt"] = draw(st.sampled_from(["f64", "f64", "f64", "c128"]))
     return case
 
 
@@ -88,7 +91,9 @@ def execute(case):
         ck.label("big_local_problems")
     if case.get("high_rank"):
         ck.label("high_rank_quotient")
-    xc = core.make_cores({"N": N, "R": case["Rx"], "dt": "f64", "mode": "gauss", "seed": case["seed"]})
+    dt = case.get("dt", "f64")
+    ck.label("dt:" + dt)
+    xc = core.make_cores({"N": N, "R": case["Rx"], "dt": dt, "mode": "gauss", "seed": case["seed"]})
     if case.get("scale_x", 0):
         kx = case["seed"] % d
         xc[kx] = xc[kx] * (10.0 ** case["scale_x"])
@@ -111,9 +116,12 @@ def execute(case):
     z = T.TT(zc)
     y = z * z + case["c"]
     ycores = core.clone_cores(y.cores)
+    if dt == "c128":
+        ycores = [c.to(torch.complex128) for c in ycores]
+        y = T.TT(core.clone_cores(ycores))
     yd = dense(ycores)
-    if not ck.require(float(yd.min()) > 0.2, "harness_precondition", "y not bounded away from zero"):
-        raise core.HarnessError("generator produced y with entries near zero: min %g" % float(yd.min()))
+    if not ck.require(float(yd.real.min()) > 0.2, "harness_precondition", "y not bounded away from zero"):
+        raise core.HarnessError("generator produced y with entries near zero: min %g" % float(yd.real.min()))
     if case.get("scale_y", 0):
         # the clause is relative: y (still bounded away from zero relative to its size) is multiplied by 10^k
         ky = (case["seed"] // 5) % d
@@ -127,7 +135,7 @@ def execute(case):
         q = lib(lambda: x / y)
         num = xd
     elif form == "s/y":
-        sv = gen.build_scalar(case["s"], "f64")
+        sv = gen.build_scalar(case["s"], dt)
         ck.label("scalar:" + case["s"]["kind"])
         q = lib(lambda: sv / y)
         num = torch.full_like(yd, float(case["s"]["value"]))
@@ -137,7 +145,7 @@ def execute(case):
         ck.label("prec:%s" % case["prec"], "eps_decade:%d" % int(math.floor(math.log10(tol))))
         if "start_R" in case:
             ck.label("starting_tensor")
-            kw["starting_tensor"] = T.TT(core.make_cores({"N": N, "R": case["start_R"], "dt": "f64", "mode": "gauss", "seed": case["seed"] + 2}))
+            kw["starting_tensor"] = T.TT(core.make_cores({"N": N, "R": case["start_R"], "dt": dt, "mode": "gauss", "seed": case["seed"] + 2}))
             if form == "ediv" and case.get("start_kind", "random") != "random":
                 kw["starting_tensor"] = x if case["start_kind"] == "x" else y
                 ck.label("starting_tensor_is_operand")
@@ -145,7 +153,7 @@ def execute(case):
             q = lib(lambda: T.elementwise_divide(x, y, **kw))
             num = xd
         else:
-            sv = gen.build_scalar(case["s"], "f64")
+            sv = gen.build_scalar(case["s"], dt)
             q = lib(lambda: T.elementwise_divide(sv, y, **kw))
             num = torch.full_like(yd, float(case["s"]["value"]))
     if not ck.require(isinstance(q, T.TT) and not q.is_ttm and [int(n) for n in q.N] == list(N), "shape",
